@@ -934,3 +934,129 @@ var _ = token.ADD
 func init() {
 	register(ruleCmpTable, rulePredLoop, ruleRegexFlags, ruleTower)
 }
+
+// --- string predicates -------------------------------------------------------------------------
+
+var ruleStrPred = &Rule{
+	Name: "R-STRPRED", NeedSSA: true,
+	Doc: "decision tables of the two string predicate callbacks: `starts with` answers strings.HasPrefix(whole, initial) when both operands are strings and unknown otherwise; like_regex answers Regexp().MatchString(value) for a string and unknown otherwise; neither returns an error",
+	Run: func(p *Prog) *RuleOut {
+		out := newOut("R-STRPRED")
+		T, F, _, err := p.predTF()
+		if err != nil {
+			out.undecided("outcome constants", "-", "", err.Error())
+			return out
+		}
+		U := constOf(p.A.PredUnknown)
+		n := 0
+		for _, fn := range p.execFuncs() {
+			if p.pairKind(fn.Signature) != "pred" {
+				continue
+			}
+			// callbacks: (ctx, node, left any, right any)
+			nAny := 0
+			for _, q := range fn.Params {
+				if it, ok := q.Type().Underlying().(*types.Interface); ok && it.NumMethods() == 0 {
+					nAny++
+				}
+			}
+			if nAny != 2 {
+				continue
+			}
+			var matcher string
+			for _, b := range fn.Blocks {
+				for _, ins := range b.Instrs {
+					if c, ok := ins.(*ssa.Call); ok {
+						switch calleeQualified(&c.Call) {
+						case "strings.HasPrefix":
+							matcher = "strings.HasPrefix"
+						case "regexp.MatchString":
+							matcher = "regexp.MatchString"
+						}
+					}
+				}
+			}
+			if matcher == "" {
+				continue
+			}
+			n++
+			tx, rows := p.extractTable(fn, nil, &TableCfg{})
+			var probs []string
+			cells := 0
+			for _, r := range rows {
+				if r.Loop != nil || len(r.Out) != 2 {
+					continue
+				}
+				if _, isPanic := r.End.(*ssa.Panic); isPanic {
+					continue
+				}
+				names := tx.atomsOf(append(guardTerms(r), r.Out...)...)
+				for _, as := range tx.assignments(names, nil) {
+					if ok, _ := tx.satisfied(r, as); !ok {
+						continue
+					}
+					cells++
+					got, gerr := tx.eval(r.Out[0], as, 0), tx.eval(r.Out[1], as, 0)
+					if gerr.Kind != "nil" {
+						probs = append(probs, "returns an error")
+					}
+					allStr := true
+					nstr := 0
+					var matchAtom string
+					for k, v := range as {
+						if strings.HasSuffix(k, ".(string)ok") {
+							nstr++
+							if v == 0 {
+								allStr = false
+							}
+						}
+						if ai := tx.atoms[k]; ai != nil && ai.Call != nil {
+							q := calleeQualified(&ai.Call.Call)
+							if q == matcher {
+								matchAtom = k
+							}
+						}
+					}
+					// was the matcher called on this path?
+					called := false
+					for _, c := range r.Calls {
+						if calleeQualified(&c.Call) == matcher {
+							called = true
+						}
+					}
+					switch {
+					case !allStr:
+						if got.Kind != "int" || got.K != U || called {
+							probs = append(probs, "a non-string operand does not yield unknown")
+						}
+					case called && matchAtom != "":
+						want := F
+						if as[matchAtom] == 1 {
+							want = T
+						}
+						if got.Kind != "int" || got.K != want {
+							probs = append(probs, fmt.Sprintf("%s = %v → %d", matcher, as[matchAtom] == 1, got.K))
+						}
+					case called:
+					default:
+						if nstr > 0 {
+							probs = append(probs, "string operands but the matcher is not consulted")
+						}
+					}
+				}
+			}
+			key := "string predicate " + fn.Name() + " (" + matcher + ")"
+			sort.Strings(probs)
+			if len(probs) == 0 && cells >= 3 {
+				out.ok(key, p.pos(fn.Pos()), fnName(fn), fmt.Sprintf("%d cells: strings → %s, anything else → unknown, never an error", cells, matcher))
+			} else {
+				out.viol(key, p.pos(fn.Pos()), fnName(fn), fmt.Sprintf("%d cells; %s", cells, strings.Join(uniq(probs), "; ")))
+			}
+		}
+		out.Counts["string_predicates"] = n
+		out.Floors["string_predicates"] = 2
+		return out
+	},
+}
+
+func init() { register(ruleStrPred) }
